@@ -148,10 +148,18 @@ def fold(e):
 
         def visit_Subscript(self, n):
             self.generic_visit(n)
-            if isinstance(n.ctx, ast.Load) and isinstance(n.value, ast.Dict) and isinstance(n.slice, ast.Constant) and lit_keys(n.value) is not None:
-                ks = lit_keys(n.value)
-                if n.slice.value in ks:
-                    return n.value.values[len(ks) - 1 - ks[::-1].index(n.slice.value)]
+            if isinstance(n.ctx, ast.Load) and isinstance(n.value, ast.Dict) and not isinstance(n.slice, ast.Slice):
+                # the latest entry stored under this very key (constant or symbolic) — `{**x, k: v}[k]` is v
+                want = key_of(n.slice)
+                for k, v in reversed(list(zip(n.value.keys, n.value.values))):
+                    if k is None:
+                        if isinstance(v, ast.Dict) and not v.keys:
+                            continue
+                        break
+                    if key_of(k) == want:
+                        return v
+                    if not (isinstance(k, ast.Constant) and isinstance(n.slice, ast.Constant)):
+                        break  # may or may not be the same key
             return n
 
         def visit_Lambda(self, n):
@@ -160,6 +168,8 @@ def fold(e):
     return F().visit(e)
 
 
+MUTATING_METHODS = {"append", "extend", "insert", "remove", "pop", "clear", "update", "setdefault", "sort", "reverse", "popitem", "add", "discard",
+                    "__setitem__", "__delitem__", "difference_update", "intersection_update", "symmetric_difference_update"}
 RAISED = "raise"  # third 'truth value' of split(): evaluating the condition raised (an unfolded helper raised)
 
 
@@ -283,6 +293,11 @@ class Executor:
         return out
 
     def call(self, fdef, call, st, depth):
+        receiver = None
+        if isinstance(fdef, tuple):  # (definition, expression bound to the first parameter) for bound methods
+            fdef, receiver = fdef
+        if receiver is not None:
+            call = ast.Call(func=call.func, args=[receiver] + list(call.args), keywords=call.keywords)
         a = fdef.args
         params = [x.arg for x in a.posonlyargs + a.args + a.kwonlyargs]
         defaults = dict(zip([x.arg for x in (a.posonlyargs + a.args)][len(a.posonlyargs + a.args) - len(a.defaults):], a.defaults))
@@ -341,8 +356,16 @@ class Executor:
         elif isinstance(target, ast.Subscript) and isinstance(target.value, ast.Name) and _fresh(st.env.get(target.value.id)):
             # element store into a local container: the container now holds the value with precedence
             nm = target.value.id
+            st.events = st.events + (("mutate", st.env[nm], None, stmt),)
             st.env[nm] = ast.Dict(keys=[None, subst(target.slice, st.env)], values=[st.env[nm], value])
+        elif isinstance(target, ast.Subscript) and isinstance(target.value, ast.Subscript) and _fresh(st.env.get(getattr(_root(target), "id", None))):
+            # x[k1][k2] = v on a local container: x[k1] becomes {**x[k1], k2: v}
+            inner = fold(subst(_as_load(target.value), st.env))
+            st.events = st.events + (("mutate", inner, None, stmt),)
+            self._assign(target.value, ast.Dict(keys=[None, subst(target.slice, st.env)], values=[inner, value]), st, stmt)
         else:
+            if isinstance(target, ast.Subscript):
+                st.events = st.events + (("mutate", subst(_as_load(target.value), st.env), None, stmt),)
             st.events = st.events + (("store", subst(target, st.env), value, stmt),)
 
     def _mutation(self, call, st):
@@ -384,12 +407,15 @@ class Executor:
         if isinstance(s, ast.AugAssign):
             vals, raised = self._values(s.value, st, depth, s)
             for v, s2 in vals:
-                cur = subst(ast.copy_location(_as_load(s.target), s.target), s2.env)
+                cur = fold(subst(ast.copy_location(_as_load(s.target), s.target), s2.env))
+                s2.events = s2.events + (("mutate", cur, None, s),)  # in place for lists / dicts / sets
                 self._assign(s.target, ast.BinOp(left=cur, op=s.op, right=v), s2, s)
             return [s2 for _, s2 in vals], raised
         if isinstance(s, ast.Expr):
             vals, raised = self._values(s.value, st, depth, s)
             for v, s2 in vals:
+                if isinstance(v, ast.Call) and isinstance(v.func, ast.Attribute) and v.func.attr in MUTATING_METHODS:
+                    s2.events = s2.events + (("mutate", v.func.value, None, s),)
                 if isinstance(s.value, ast.Call) and self._mutation(s.value, s2):
                     pass
                 elif isinstance(v, ast.Call):
@@ -522,6 +548,12 @@ def literal_elements(it, limit=16):
     if how is None and isinstance(it, (ast.List, ast.Tuple)) and len(it.elts) <= limit and not any(isinstance(x, ast.Starred) for x in it.elts):
         return list(it.elts)
     return None
+
+
+def _root(t):
+    while isinstance(t, (ast.Subscript, ast.Attribute)):
+        t = t.value
+    return t
 
 
 def _fresh(v) -> bool:
